@@ -209,7 +209,7 @@ def valid_case(case):
 
 def run(ctx):
     from ssh_audit.builtin_policies import BUILTIN_POLICIES
-    n = 1500 if ctx.quick else 30000
+    n = 3000 if ctx.quick else 40000
     ctx.hyp('strat_peer', n, label=1, shards=16)
     bc = []
     for p, pol in BUILTIN_POLICIES.items():
